@@ -16,6 +16,7 @@ import DarsiaModel.Corrections
 import DarsiaProofs.Corrections
 import DarsiaProps.C09
 import DarsiaModel.CorrHeap
+import DarsiaModel.Corrections2
 import DarsiaProofs.CorrHeap
 namespace Darsia.C10
 open Darsia.Correction
@@ -434,5 +435,216 @@ example : (Arr2.allIn ⟨1, 1, fun _ _ => 3/2⟩ (convOk .f64 .u8)) = false := b
 end raising
 
 end heap
+
+/-! ## Round 4: curvature, illumination, active drift -/
+
+section round4
+open Darsia.Corrections Darsia.Affine Darsia.Warp
+
+theorem Arr2.agree_trans {β} {a b c : Arr2 β} (h1 : a.agree b) (h2 : b.agree c) : a.agree c := by
+  obtain ⟨a0, a1, av⟩ := h1
+  obtain ⟨b0, b1, bv⟩ := h2
+  refine ⟨a0.trans b0, a1.trans b1, fun i j hi0 hi1 hj0 hj1 => ?_⟩
+  rw [av i j hi0 hi1 hj0 hj1]
+  exact bv i j hi0 (by rw [← a0]; exact hi1) hj0 (by rw [← a1]; exact hj1)
+
+/-- zero bulge and stretch (any centre offsets): `_transform_coordinates` is the identity on pixel coordinates. -/
+theorem transformCoords_neutral (c : BS) (hc : c.neutral) (Nx Ny : Nat) (x y : Rat) :
+    transformCoords c Nx Ny x y = (x, y) := by
+  obtain ⟨h1, h2, h3, h4⟩ := hc
+  simp only [transformCoords, h1, h2, h3, h4]
+  refine Prod.ext ?_ ?_ <;> simp <;> ring
+
+theorem stage_neutral (interp : Interp) (hI : InterpExact interp) (c : BS) (hc : c.neutral) (F : Arr2 Rat) :
+    (stageBS interp c F).agree F := by
+  refine ⟨rfl, rfl, fun i j hi0 hi1 hj0 hj1 => ?_⟩
+  simp only [stageBS, transformCoords_neutral c hc]
+  exact hI F i j hi0 hi1 hj0 hj1
+
+theorem stage_congr (interp : Interp) (hL : InterpLocal interp) (c : BS) (F G : Arr2 Rat) (h : F.agree G) :
+    (stageBS interp c F).agree (stageBS interp c G) := by
+  refine ⟨h.1, h.2.1, fun i j _ _ _ _ => ?_⟩
+  simp only [stageBS, h.1, h.2.1]
+  exact hL F G h _ _
+
+/-- the whole stage pipeline with a neutral config leaves a coordinate field as it is. -/
+theorem curvField_neutral (interp : Interp) (hI : InterpExact interp) (hL : InterpLocal interp)
+    (crop : Arr2 Rat → Arr2 Rat) (cfg : CurvCfg) (hn : cfg.neutral) (F : Arr2 Rat) :
+    (curvField interp crop cfg F).agree F := by
+  obtain ⟨hi, hc, hb, hs⟩ := hn
+  have opt : ∀ (o : Option BS), (∀ c, o = some c → c.neutral) → ∀ G : Arr2 Rat, (optStage interp o G).agree G := by
+    intro o ho G
+    cases o with
+    | none => exact Arr2.agree_refl G
+    | some c => exact stage_neutral interp hI c (ho c rfl) G
+  have optc : ∀ (o : Option BS) (G H : Arr2 Rat), G.agree H → (optStage interp o G).agree (optStage interp o H) := by
+    intro o G H h
+    cases o with
+    | none => exact h
+    | some c => exact stage_congr interp hL c G H h
+  simp only [curvField, hc, Bool.false_eq_true, if_false]
+  exact Arr2.agree_trans (opt _ hs _) (Arr2.agree_trans (opt _ hb _) (opt _ hi _))
+
+/-- NEUTRAL ⇒ IDENTITY for CurvatureCorrection (zero bulge / stretch in every entry, no crop), for any interpolation routine
+that is exact at in-range integer positions and local. -/
+theorem curv_neutral (interp : Interp) (hI : InterpExact interp) (hL : InterpLocal interp)
+    (crop : Arr2 Rat → Arr2 Rat) (cfg : CurvCfg) (hn : cfg.neutral) (a : Arr2 Rat) :
+    (curvCorr interp crop cfg a).agree a := by
+  have hy := curvField_neutral interp hI hL crop cfg hn ⟨a.n0, a.n1, fun i _ => (i : Rat)⟩
+  have hx := curvField_neutral interp hI hL crop cfg hn ⟨a.n0, a.n1, fun _ j => (j : Rat)⟩
+  refine ⟨hx.1, hx.2.1, fun i j hi0 hi1 hj0 hj1 => ?_⟩
+  have hi1' : i < (a.n0 : Int) := by have := hx.1; simp only [curvCorr, curvApply, curvGrid] at hi1; rw [this] at hi1; exact hi1
+  have hj1' : j < (a.n1 : Int) := by have := hx.2.1; simp only [curvCorr, curvApply, curvGrid] at hj1; rw [this] at hj1; exact hj1
+  simp only [curvCorr, curvApply, curvGrid]
+  rw [hy.2.2 i j hi0 (by rw [hy.1]; exact hi1') hj0 (by rw [hy.2.1]; exact hj1'),
+    hx.2.2 i j hi0 (by rw [hx.1]; exact hi1') hj0 (by rw [hx.2.1]; exact hj1')]
+  exact hI a i j hi0 hi1' hj0 hj1'
+
+/-- PURITY of CurvatureCorrection (fresh object): the grid depends on the shape only, the values only through the (local)
+interpolation routine. -/
+theorem curv_pure (interp : Interp) (hL : InterpLocal interp) (crop : Arr2 Rat → Arr2 Rat) (cfg : CurvCfg)
+    (a b : Arr2 Rat) (h : a.agree b) : (curvCorr interp crop cfg a).agree (curvCorr interp crop cfg b) := by
+  simp only [curvCorr, h.1, h.2.1]
+  refine ⟨rfl, rfl, fun i j _ _ _ _ => ?_⟩
+  simp only [curvApply]
+  exact hL a b h _ _
+
+/-- the grid cache is transparent: after ANY history of calls (arrays of any shapes) the object returns what a fresh
+object returns. -/
+theorem curv_cache_transparent (interp : Interp) (crop : Arr2 Rat → Arr2 Rat) (cfg : CurvCfg)
+    (hs : List (Arr2 Rat)) (a : Arr2 Rat) :
+    curvRun interp crop cfg none hs a = curvCorr interp crop cfg a := by
+  have step : ∀ (st : Option CurvCache) (x : Arr2 Rat),
+      (st = none ∨ ∃ m0 m1, st = some (m0, m1, curvGrid interp crop cfg m0 m1)) →
+      (curvStep interp crop cfg st x).1 = some (x.n0, x.n1, curvGrid interp crop cfg x.n0 x.n1) ∧
+      (curvStep interp crop cfg st x).2 = curvCorr interp crop cfg x := by
+    intro st x h
+    rcases h with rfl | ⟨m0, m1, rfl⟩
+    · exact ⟨rfl, rfl⟩
+    · simp only [curvStep, curvCorr]
+      by_cases hm : m0 = x.n0 ∧ m1 = x.n1
+      · simp [hm.1, hm.2]
+      · simp [hm]
+  have gen : ∀ (st : Option CurvCache), (st = none ∨ ∃ m0 m1, st = some (m0, m1, curvGrid interp crop cfg m0 m1)) →
+      curvRun interp crop cfg st hs a = curvCorr interp crop cfg a := by
+    induction hs with
+    | nil => intro st h; exact (step st a h).2
+    | cons x xs ih =>
+      intro st h
+      simp only [curvRun]
+      exact ih _ (Or.inr ⟨x.n0, x.n1, (step st x h).1⟩)
+  exact gen none (Or.inl rfl)
+
+/-- DEFECT of the tree before the fix, as a theorem: re-using the first array's grid gives a 1 × 1 result for a 1 × 2 array
+after a 1 × 1 array. -/
+theorem curv_cache_stale_witness :
+    (curvStepOld interpNearest id ⟨none, false, none, none⟩
+      (curvStepOld interpNearest id ⟨none, false, none, none⟩ none ⟨1, 1, fun _ _ => 5⟩).1 ⟨1, 2, fun _ j => j⟩).2.n1 = 1 ∧
+    (curvCorr interpNearest id ⟨none, false, none, none⟩ ⟨1, 2, fun _ j => j⟩).n1 = 2 := by
+  constructor <;> rfl
+
+/-- `_adapt_config` keeps a neutral config neutral, for every resize factor. -/
+theorem adapt_neutral (f : Rat) (cfg : CurvCfg) (hn : cfg.neutral) : (adaptCfg f cfg).neutral := by
+  obtain ⟨hi, hc, hb, hs⟩ := hn
+  have hbul : ∀ c : BS, c.neutral → (adaptBulge f c).neutral := by
+    intro c ⟨h1, h2, h3, h4⟩; exact ⟨by simp [adaptBulge, h1], h2, by simp [adaptBulge, h3], h4⟩
+  have hstr : ∀ c : BS, c.neutral → (adaptStretch f c).neutral := by
+    intro c ⟨h1, h2, h3, h4⟩; exact ⟨h1, by simp [adaptStretch, h2], h3, by simp [adaptStretch, h4]⟩
+  refine ⟨?_, hc, ?_, ?_⟩
+  · intro c hcc; cases hci : cfg.init with
+    | none => simp [adaptCfg, hci] at hcc
+    | some c0 => simp [adaptCfg, hci] at hcc; subst hcc; exact hbul c0 (hi c0 hci)
+  · intro c hcc; cases hci : cfg.bulge with
+    | none => simp [adaptCfg, hci] at hcc
+    | some c0 => simp [adaptCfg, hci] at hcc; subst hcc; exact hbul c0 (hb c0 hci)
+  · intro c hcc; cases hci : cfg.stretch with
+    | none => simp [adaptCfg, hci] at hcc
+    | some c0 => simp [adaptCfg, hci] at hcc; subst hcc; exact hstr c0 (hs c0 hci)
+
+/-- the nearest-sample routine (`order = 0`) satisfies both contracts. -/
+theorem interpNearest_contracts : InterpExact interpNearest ∧ InterpLocal interpNearest := by
+  constructor
+  · intro F i j hi0 hi1 hj0 hj1
+    have a0 : (0 : Rat) ≤ (i : Rat) := by exact_mod_cast hi0
+    have a1 : (i : Rat) ≤ (F.n0 : Rat) - 1 := by
+      have : i + 1 ≤ (F.n0 : Int) := by omega
+      have : ((i + 1 : Int) : Rat) ≤ ((F.n0 : Int) : Rat) := by exact_mod_cast this
+      push_cast at this; linarith
+    have b0 : (0 : Rat) ≤ (j : Rat) := by exact_mod_cast hj0
+    have b1 : (j : Rat) ≤ (F.n1 : Rat) - 1 := by
+      have : j + 1 ≤ (F.n1 : Int) := by omega
+      have : ((j + 1 : Int) : Rat) ≤ ((F.n1 : Int) : Rat) := by exact_mod_cast this
+      push_cast at this; linarith
+    simp only [interpNearest, interpNearestShift, add_zero, ite_self, floor_int_add_half]
+    rw [if_pos ⟨a0, a1, b0, b1⟩, clipInt_id i _ hi0 hi1, clipInt_id j _ hj0 hj1]
+  · intro F G h r c
+    simp only [interpNearest, interpNearestShift, add_zero, ite_self, ← h.1, ← h.2.1]
+    split
+    · rename_i hc
+      have hn0 : 0 < F.n0 := by
+        have : (0 : Rat) ≤ (F.n0 : Rat) - 1 := le_trans hc.1 hc.2.1
+        have : (1 : Rat) ≤ (F.n0 : Rat) := by linarith
+        exact_mod_cast this
+      have hn1 : 0 < F.n1 := by
+        have : (0 : Rat) ≤ (F.n1 : Rat) - 1 := le_trans hc.2.2.1 hc.2.2.2
+        have : (1 : Rat) ≤ (F.n1 : Rat) := by linarith
+        exact_mod_cast this
+      exact h.2.2 _ _ (clipInt_bounds _ _ hn0).1 (clipInt_bounds _ _ hn0).2 (clipInt_bounds _ _ hn1).1 (clipInt_bounds _ _ hn1).2
+    · rfl
+
+/-- IlluminationCorrection reads only its argument (and its fixed scaling images). -/
+theorem illum_pure (rgb : Bool) (scal : Nat → Int → Int → Rat) (a b : Arr2C) (h : a.agree b) :
+    (illumCorr rgb scal a).agree (illumCorr rgb scal b) := by
+  obtain ⟨hd, h0, h1, hv⟩ := h
+  refine ⟨hd, h0, h1, fun i j hi0 hi1 hj0 hj1 ch hch => ?_⟩
+  simp only [illumCorr, hd, hv i j hi0 hi1 hj0 hj1 ch hch]
+
+/-- unit scaling ⇒ pixel values unchanged (float images: always; integer images: integer payloads). -/
+theorem illum_neutral (rgb : Bool) (scal : Nat → Int → Int → Rat) (a : Arr2C)
+    (hs : ∀ k i j, scal k i j = 1)
+    (hint : a.dt ≠ .f64 → ∀ i j ch, ∃ n : Int, a.get i j ch = (n : Rat)) :
+    (illumCorr rgb scal a).agree a := by
+  refine ⟨rfl, rfl, rfl, fun i j _ _ _ _ ch _ => ?_⟩
+  simp only [illumCorr, hs, mul_one]
+  cases hd : a.dt with
+  | f64 => rfl
+  | u8 => obtain ⟨n, hn⟩ := hint (by simp [hd]) i j ch; simp only [storeAs, hn, trunc_int]
+  | u16 => obtain ⟨n, hn⟩ := hint (by simp [hd]) i j ch; simp only [storeAs, hn, trunc_int]
+
+/-- colour-space handling: every colour space but "rgb" scales all three channels with `local_scaling[0]`. -/
+theorem illum_scalar_colourspace (scal : Nat → Int → Int → Rat) (a : Arr2C) (i j : Int) (ch : Nat) :
+    (illumCorr false scal a).get i j ch = storeAs a.dt (a.get i j ch * scal 0 i j) := rfl
+
+/-- active DriftCorrection: pure given a translation estimate that reads only its argument; zero estimate on a base of the
+same shape ⇒ identity; no intact translation ⇒ ValueError. -/
+theorem drift_active (est : TArr → Option (Int × Int)) (b0 b1 : Nat) (a b : TArr) (h : a.agree b)
+    (hest : est a = est b) :
+    (match driftActive est b0 b1 a, driftActive est b0 b1 b with
+     | .ok x, .ok y => x.agree y
+     | .error e, .error e' => e = e'
+     | _, _ => False) ∧
+    (est a = some (0, 0) → b0 = a.arr.n0 → b1 = a.arr.n1 → ∃ x, driftActive est b0 b1 a = .ok x ∧ x.agree a) ∧
+    (est a = none → driftActive est b0 b1 a = .error .value) := by
+  obtain ⟨hd, h0, h1, hv⟩ := h
+  refine ⟨?_, ?_, ?_⟩
+  · simp only [driftActive, ← hest]
+    cases est a with
+    | none => rfl
+    | some t =>
+      obtain ⟨tx, ty⟩ := t
+      refine ⟨hd, rfl, rfl, fun i j _ _ _ _ => ?_⟩
+      simp only [shift2, ← h0, ← h1]
+      split
+      · rename_i hc; exact hv _ _ hc.1 hc.2.1 hc.2.2.1 hc.2.2.2
+      · rfl
+  · intro he hb0 hb1
+    subst hb0 hb1
+    refine ⟨⟨a.dt, ⟨a.arr.n0, a.arr.n1, shift2 0 a.arr.n0 a.arr.n1 0 0 a.arr.get⟩⟩, by simp only [driftActive, he], rfl, rfl, rfl,
+      fun i j hi0 hi1 hj0 hj1 => ?_⟩
+    simp only [shift2, sub_zero]
+    rw [if_pos ⟨hi0, hi1, hj0, hj1⟩]
+  · intro he; simp only [driftActive, he]
+
+end round4
 
 end Darsia.C10
